@@ -134,13 +134,26 @@ func (b Builder) SetBlockEx(blk BasicBlock, pos InsertPoint, setBlk bool) {
 }
 
 func instrAfterInit(blk llvm.BasicBlock) llvm.Value {
-	instr := blk.FirstInstruction()
+	instr := guardStore(blk)
 	for {
 		instr = llvm.NextInstruction(instr)
 		if notInit(instr) {
 			return instr
 		}
 	}
+}
+
+// guardStore returns the store that sets <pkg>.init$guard: the init calls of the
+// imported packages follow it. Other code (e.g. the tables of embed.FS variables)
+// may have been emitted in front of it.
+func guardStore(blk llvm.BasicBlock) llvm.Value {
+	first := blk.FirstInstruction()
+	for instr := first; !instr.IsNil(); instr = llvm.NextInstruction(instr) {
+		if instr.InstructionOpcode() == llvm.Store && strings.HasSuffix(instr.Operand(1).Name(), ".init$guard") {
+			return instr
+		}
+	}
+	return first
 }
 
 func notInit(instr llvm.Value) bool {
